@@ -157,6 +157,48 @@ pub proof fn lemma_le_bytes_shift(w: u64)
     assert(le_bytes(w >> 8) =~= le_bytes(w).subrange(1, 8).push(0u8));
 }
 
+// ------------------------------------------------------------------ lowercase keyword kernel (btor2)
+pub open spec fn is_lower(b: u8) -> bool { 0x61 <= b <= 0x7a }
+// number of leading lowercase bytes among the first `avail` bytes
+pub open spec fn lower_len_upto(s: Seq<u8>, avail: nat) -> nat
+    decreases avail
+{
+    if avail == 0 { 0 } else {
+        let r = lower_len_upto(s, (avail - 1) as nat);
+        if r == avail - 1 && avail - 1 < s.len() && is_lower(s[avail - 1]) { avail } else { r }
+    }
+}
+// the first n bytes of s, zero padded to 8 bytes
+pub open spec fn lower_padded(s: Seq<u8>, n: nat) -> Seq<u8> {
+    Seq::new(8, |i: int| if i < n && i < s.len() { s[i] } else { 0u8 })
+}
+pub proof fn lemma_lower_len_upto(s: Seq<u8>, avail: nat, k: nat)
+    requires k <= avail, avail <= s.len(), forall|i: int| 0 <= i < k ==> is_lower(#[trigger] s[i]), k == avail || !is_lower(s[k as int])
+    ensures lower_len_upto(s, avail) == k
+    decreases avail
+{
+    if avail > 0 {
+        if k == avail {
+            assert(is_lower(s[avail - 1]));
+            lemma_lower_len_upto(s, (avail - 1) as nat, (avail - 1) as nat);
+        } else {
+            lemma_lower_len_upto(s, (avail - 1) as nat, k);
+        }
+    }
+}
+#[verifier::external_body]
+pub proof fn lemma_le_word(out: [u8; 8])
+    ensures le_bytes(u64_from_le(out)) == out@
+{}
+// u64::from_le_bytes (trusted: definition of little-endian assembly)
+pub uninterp spec fn u64_from_le(b: [u8; 8]) -> u64;
+#[verifier::external_body]
+pub fn u64_from_le_shim(b: [u8; 8]) -> (r: u64)
+    ensures r == u64_from_le(b)
+{ u64::from_le_bytes(b) }
+
+//@include lower_ref.rs
+
 // ------------------------------------------------------------------ the kernel's reference (shared text with the Kani harness)
 pub open spec fn min8(n: nat) -> nat { if n < 8 { n } else { 8 } }
 
